@@ -1045,6 +1045,11 @@ class IfBlock(Block, start=IfBeginStmt, end=EndIfStmt):
         elseif_stmts = []
         else_stmt = None
         for stmt in body:
+            if isinstance(stmt, (ElseIfStmt, ElseStmt)) and \
+               else_stmt is not None:
+                raise SyntaxError(
+                    loc=stmt.loc_start,
+                    msg=f'{stmt.node_name()} after ELSE')
             if isinstance(stmt, ElseIfStmt):
                 elseif_stmts.append(stmt)
                 if_blocks.append((cur_if_cond, cur_if_body))
